@@ -168,6 +168,7 @@ type dkgRun struct {
 	Fault     dkgFault
 	Order     []uint64
 	Stale     []uint64 // instances that already hold an account of that name
+	NoPass    bool     // the client supplies no passphrase (the instances use their generation passphrase)
 
 	Parts    []uint64
 	Polys    map[uint64][]*big.Int
@@ -374,7 +375,11 @@ func runGeneration(ctx context.Context, c *Cluster, r *dkgRun) {
 				r.Err = fmt.Errorf("panic: %v", x)
 			}
 		}()
-		r.PubKey, _, r.Err = init.Process.OnGenerate(ctx, &checker.Credentials{Client: "client1", IP: "10.0.0.1"}, r.Acct, []byte("pass"), r.T, r.N)
+		pass := []byte("pass")
+		if r.NoPass {
+			pass = nil
+		}
+		r.PubKey, _, r.Err = init.Process.OnGenerate(ctx, &checker.Credentials{Client: "client1", IP: "10.0.0.1"}, r.Acct, pass, r.T, r.N)
 	}()
 	c.mu.Lock()
 	c.Tamper = nil
@@ -689,7 +694,7 @@ func cmdDkg(prop string, args []string) int {
 					}
 					for _, init := range inits {
 						acctN++
-						r := &dkgRun{IDs: ids, Initiator: init, N: n, T: t, Acct: fmt.Sprintf("Wallet 3/g%d", acctN)}
+						r := &dkgRun{IDs: ids, Initiator: init, N: n, T: t, Acct: fmt.Sprintf("Wallet 3/g%d", acctN), NoPass: acctN%4 == 0}
 						if n/2 < t && t <= n && rng.Chance(70) {
 							// a prescribed arrival order of the parallel commit replies
 							r.Order = append([]uint64{}, ids...)
@@ -767,6 +772,22 @@ func cmdDkg(prop string, args []string) int {
 						stats["generation.failed-as-required"]++
 					}
 					record(r)
+				}
+			}
+		}
+		// more participants than there are instances: refused, nothing created
+		if prop == "C12" {
+			n := uint32(len(ids) + 1)
+			for _, t := range []uint32{n/2 + 1, n} {
+				acctN++
+				r := &dkgRun{IDs: ids, Initiator: ids[0], N: n, T: t, Acct: fmt.Sprintf("Wallet 3/x%d", acctN)}
+				runGeneration(ctx, c, r)
+				stats["generation.more-than-peers"]++
+				if r.Err == nil {
+					monFail = append(monFail, fmt.Sprintf("generation for %d participants reported success on a cluster of %d instances %v (threshold %d)", n, len(ids), ids, t))
+					monFail = append(monFail, judgeSuccess(ctx, c, r, stats, false)...)
+				} else {
+					monFail = append(monFail, judgeFailure(r)...)
 				}
 			}
 		}
